@@ -2362,7 +2362,11 @@ func (vc *VC) emitUnmatchedAssertCalls() {
 			if len(ac.Labels) == 0 {
 				name = fmt.Sprintf("assert@call:%s@%d", ac.Callee, ac.Line)
 			}
+			// unconditional: the return at which this is emitted may itself be unreachable
+			saved := vc.cur
+			vc.cur = "true"
 			vc.oblige(name, "assert", fmt.Sprintf("the function no longer calls %s, which the contract constrains: %s", ac.Callee, ac.Text), "false", ac)
+			vc.cur = saved
 		}
 	}
 }
